@@ -135,10 +135,12 @@ impl Model {
         let mut me = Self::blank(Family::Knapsack);
         me.n = n;
         me.m = 2;
-        me.profit = (0..n).map(|_| r.gen_range(0..7)).collect();
-        me.weight = (0..n).map(|_| r.gen_range(1..5)).collect();
+        // two scales: tiny (capacity <= 9) and larger (capacity <= 26, as in the shipped knapsack example) where deeper diagrams get squashed
+        let big = n >= 7 || r.gen_bool(0.25);
+        me.profit = (0..n).map(|_| r.gen_range(0..if big { 21 } else { 7 })).collect();
+        me.weight = (0..n).map(|_| r.gen_range(1..if big { 13 } else { 5 })).collect();
         let tot: usize = me.weight.iter().sum();
-        me.root = r.gen_range(0..=tot.min(9)) as u32;
+        me.root = r.gen_range(if big { 8 } else { 0 }..=tot.min(if big { 26 } else { 9 }).max(8)) as u32;
         me.b = me.root as usize + 1;
         me.v0 = r.gen_range(0..2);
         me.rub = rub;
